@@ -117,6 +117,52 @@ theorem join_empty_separator_list (ty : Bytes) (xs : List Val) :
     applyFilter b!"join" ⟨.list ty xs, false⟩ ⟨.str [], false⟩ = .ok ⟨.str (Bytes.join [] (xs.map Val.toS)), false⟩ := by
   simp [applyFilter, Val.canSlice, Val.isString, Val.rkind, Val.kind, Val.resolved, Val.toS, Val.toStr, Val.isNil, mkStr, joinVals, Val.reflected]
 
+/-! ### the sequence operations they name -/
+
+/-- `first` / `last` of a non-empty list are its first / last item; of anything without items, the empty text -/
+theorem first_last_of_list (ty : Bytes) (x : Val) (xs : List Val) :
+    applyFilter b!"first" ⟨.list ty (x :: xs), false⟩ ⟨.nil, false⟩ = .ok ⟨x, false⟩ ∧
+    applyFilter b!"last" ⟨.list ty (x :: xs), false⟩ ⟨.nil, false⟩ = .ok ⟨(x :: xs).getD xs.length .nil, false⟩ ∧
+    applyFilter b!"first" ⟨.list ty [], false⟩ ⟨.nil, false⟩ = .ok ⟨.str [], false⟩ ∧
+    applyFilter b!"last" ⟨.list ty [], false⟩ ⟨.nil, false⟩ = .ok ⟨.str [], false⟩ := by
+  refine ⟨?_, ?_, ?_, ?_⟩ <;>
+    simp [applyFilter, Val.canSlice, Val.rkind, Val.kind, Val.resolved, Val.len, Val.reflected, vIndex, mkStr]
+
+/-- `length` counts the items of a list and the characters (not the bytes) of a text; `length_is` compares with it -/
+theorem length_counts (ty : Bytes) (xs : List Val) (s : Bytes) (p : V) :
+    applyFilter b!"length" ⟨.list ty xs, false⟩ p = .ok ⟨.int (Int64.ofNat xs.length), false⟩ ∧
+    applyFilter b!"length" ⟨.str s, false⟩ p = .ok ⟨.int (Int64.ofNat (Utf8.runes s).length), false⟩ ∧
+    applyFilter b!"length_is" ⟨.list ty xs, false⟩ p = .ok ⟨.bool (Int64.ofNat xs.length == p.v.toInt), false⟩ := by
+  refine ⟨?_, ?_, ?_⟩ <;> simp [applyFilter, Val.len, Val.resolved, Val.reflected, mkInt, mkBool]
+
+/-- `default` replaces exactly the false values, `default_if_none` exactly nothing-at-all; both hand the
+    value (or the parameter) on unchanged, safe mark included -/
+theorem default_picks (i p : V) :
+    applyFilter b!"default" i p = .ok (if i.v.isTrue then i else p) ∧
+    applyFilter b!"default_if_none" i p = .ok (if i.v.isNil then p else i) := by
+  constructor
+  · by_cases h : i.v.isTrue <;> simp [applyFilter, h]
+  · by_cases h : i.v.isNil <;> simp [applyFilter, h]
+
+/-- `add` is integer addition on two integers, and concatenation as soon as one side is no number -/
+theorem add_adds_or_concatenates (a c : Int64) (s t : Bytes) :
+    applyFilter b!"add" ⟨.int a, false⟩ ⟨.int c, false⟩ = .ok ⟨.int (a + c), false⟩ ∧
+    applyFilter b!"add" ⟨.str s, false⟩ ⟨.str t, false⟩ = .ok ⟨.str (s ++ t), false⟩ ∧
+    applyFilter b!"add" ⟨.int a, false⟩ ⟨.str t, false⟩ = .ok ⟨.str ((Val.int a).toS ++ t), false⟩ := by
+  refine ⟨?_, ?_, ?_⟩ <;>
+    simp [applyFilter, Val.isNumber, Val.isInteger, Val.isFloat, Val.isNil, Val.rkind, Val.kind, Val.resolved, Val.toInt, mkInt, mkStr, Val.toS, Val.toStr]
+
+/-- `upper` / `lower` change letters only: the result of an ASCII text has the same length, and what
+    is already upper (lower) case stays -/
+theorem upper_lower_keep_shape (s : Bytes) (h : isAscii s = true) (p : V) :
+    (∃ r, applyFilter b!"upper" ⟨.str s, false⟩ p = .ok ⟨.str r, false⟩ ∧ r.length = s.length) ∧
+    (∃ r, applyFilter b!"lower" ⟨.str s, false⟩ p = .ok ⟨.str r, false⟩ ∧ r.length = s.length) := by
+  constructor
+  · exact ⟨s.map asciiUpper, by simp [applyFilter, Val.toS, Val.toStr, Val.isNil, Val.rkind, Val.kind, Val.resolved, h, mkStr], by simp⟩
+  · exact ⟨s.map asciiLower, by simp [applyFilter, Val.toS, Val.toStr, Val.isNil, Val.rkind, Val.kind, Val.resolved, h, mkStr], by simp⟩
+
+example : (Utf8.runes b!"日本").length = 2 ∧ (b!"日本").length = 6 := by decide
+
 /-- `pluralize`: a float is one only if it is 1.0 — 1.5 takes the plural -/
 theorem pluralize_float (f : Float) (h : (f == 1) = false) :
     applyFilter b!"pluralize" ⟨.float f, false⟩ ⟨.nil, false⟩ = .ok ⟨.str b!"s", false⟩ := by
